@@ -195,10 +195,11 @@ static inline int post_verif_tp2_copy_write(unsigned long a, int b, unsigned lon
  * The objects live inside the scenario wrappers (constructed, operated on, read back, destroyed); the wrapper parameters are the
  * sizes / the probed position i / the written values.  i is arbitrary, so a postcondition about position i is one about every
  * position.  The ghost g is bound to i (loop invariants inside the vector code talk about g), vg to the value stored there.
- * Sizes are bounded by VEC_MAX = 2^20 elements (sizeof(T)*n must not wrap; std::vector::max_size() plays the same role); the bound is a
- * precondition only -- no loop is unwound, the proofs also go through for 2^32 (tried), 2^20 keeps native replays cheap. */
+ * Sizes are bounded by VEC_MAX = 2^16 elements (sizeof(T)*n must not wrap; std::vector::max_size() plays the same role); the bound is a
+ * precondition only -- no loop is unwound.  The proofs also go through for 2^20 and 2^32 (tried), but with such bounds the SAT search for a
+ * counterexample on a *broken* resize (mutation tests vec-resize-*) times out; 2^16 keeps falsification and native replays fast. */
 #ifndef VEC_MAX
-#define VEC_MAX 1048576UL
+#define VEC_MAX 65536UL
 #endif
 GHOST(unsigned long, vg)
 static inline int pre_verif_vec_sized(unsigned long n, unsigned long i, unsigned long x) { return n <= VEC_MAX && GHOST_DEF(g, i) && GHOST_DEF(vg, x); }
